@@ -424,7 +424,10 @@ def run(ctx):
     rng = ctx.rng
     ctx.rule = ("completed steps of scheduler-shaped histories of the real REPEX_state (see C03) incl. zero swaps, "
                 "rejections, several workers; after every completed step infretis_data.txt and restart.toml are parsed; "
-                "distinct = distinct (restart fractions, data rows) contents")
+                "distinct = distinct (restart fractions, data rows) contents; disk family (props/c04_disk.py): every row "
+                "written, the restart image, the idle counts and every stop inside every completed step of histories with "
+                "real files and real restarts (clean_data_file, load_paths), plus direct families for write_to_pathens and "
+                "clean_data_file; distinct = distinct inputs / histories")
     plans = []
     for n_ens in (2, 3, 4, 5):
         for w in range(1, n_ens):
@@ -434,6 +437,8 @@ def run(ctx):
         n_ens = rng.randint(5, 8)
         plans.append((n_ens, rng.randint(1, n_ens - 1), rng.randint(40, 100 if ctx.quick else 300), rng.randint(0, 9),
                       rng.random() < 0.5, 1, rng.choice([0.3, 0.7, 0.95]), n_ens <= 5))
+    from props import c04_disk
+    c04_disk.run_disk(ctx)
     crash_family(ctx)
     # restart chains (killed right after the restart file of a step was written, rebuilt from restart.toml);
     # acc_p 0.7 / 0.5 so that rejected moves in [0-] on the initial path 0 occur before and after restarts
@@ -481,6 +486,12 @@ def run(ctx):
 
 def replay(ctx, obj):
     r = obj.get("replay", {})
+    if r.get("family") in ("disk", "fmt", "clean"):
+        from props import c04_disk
+        c04_disk.replay_disk(ctx, r)
+        for f in ctx.fails:
+            print("still fails:", f["signature"], f["what"])
+        return 1 if ctx.fails else 0
     if r.get("family") == "crash":
         ctx.seed = r.get("ctxseed", ctx.seed)
         if "k" in r:
